@@ -1,7 +1,7 @@
 \* generation (run with -simulate): random behaviours AddView* CreateInst* Collect with expectations in hist
 CONSTANTS
   TypeSet <- Types3   PatSet <- Pats3   UnitSelSet <- UnitSel2   MSelSet <- MSels4   ShapeSet <- ShapesAll
-  INameSet <- INamesAll   IUnitSet <- IUnits2   MeterSet <- MetersAll   AttrSet <- AttrsAll
+  INameSet <- INamesAll   IUnitSet <- IUnits2   MeterSet <- Meters6   AttrSet <- AttrsAll
   MaxViews = 2  MaxInst = 3  Hist = TRUE
 INIT Init
 NEXT Next
